@@ -52,6 +52,9 @@ type Scenario struct {
 	// QuickBudget / ThoroughBudget: wall-clock budget of the exploration; when exceeded the run
 	// stops with exhaustive=false at the last completed bound (never a failure).
 	QuickBudget, ThoroughBudget time.Duration
+	// ThoroughOnly scenarios are skipped by the quick tier. Quiet scenarios print no per-scenario line and are
+	// summarised by family (the part of the name before "::") in the evidence.
+	ThoroughOnly, Quiet bool
 }
 
 type failure struct {
@@ -69,6 +72,7 @@ type job struct {
 	Prefix []int  `json:"prefix"`
 	Used   int    `json:"used"`
 	Bound  int    `json:"bound"`
+	Det    bool   `json:"det,omitempty"` // whole-scenario job: also run the determinism double-run
 }
 
 type result struct {
@@ -182,6 +186,65 @@ func judge(s *Scenario, o *vsched.Outcome, used int, res *result) {
 	res.Fails[key] = f
 }
 
+// detCheck: the default schedule run twice must give identical observations and points.
+func detCheck(s *Scenario) string {
+	o1 := vsched.RunOnce(nil, s.Body, opts(s, false))
+	o2 := vsched.RunOnce(nil, s.Body, opts(s, false))
+	if strings.Join(o1.Trace, "|") != strings.Join(o2.Trace, "|") || fmt.Sprint(o1.Alts) != fmt.Sprint(o2.Alts) || firstLine(o1.Failure) != firstLine(o2.Failure) {
+		return fmt.Sprintf("nondeterministic: scenario %s gives different observations for the same schedule:\n%v\n%v\n%v\n%v\nfailure1=%q\nfailure2=%q", s.Name, o1.Trace, o2.Trace, o1.Alts, o2.Alts, o1.Failure, o2.Failure)
+	}
+	return ""
+}
+
+// exploreBatch explores many small scenarios, one whole scenario per worker job, in parallel.
+func exploreBatch(scn []*Scenario, bound func(*Scenario) int) (map[string]*result, error) {
+	out := map[string]*result{}
+	var mu sync.Mutex
+	next := 0
+	var firstErr error
+	var wg sync.WaitGroup
+	nw := runtime.NumCPU()
+	if nw > len(scn) {
+		nw = len(scn)
+	}
+	for k := 0; k < nw; k++ {
+		wg.Add(1)
+		go func() {
+			defer wg.Done()
+			w, err := getWorker()
+			if err != nil {
+				mu.Lock()
+				firstErr = err
+				mu.Unlock()
+				return
+			}
+			for {
+				mu.Lock()
+				if next >= len(scn) || firstErr != nil {
+					mu.Unlock()
+					break
+				}
+				s := scn[next]
+				next++
+				mu.Unlock()
+				r, err := w.do(job{Scn: s.Name, Bound: bound(s), Det: true})
+				mu.Lock()
+				if err != nil {
+					firstErr = err
+					mu.Unlock()
+					w.stop()
+					return
+				}
+				out[s.Name] = r
+				mu.Unlock()
+			}
+			putWorker(w)
+		}()
+	}
+	wg.Wait()
+	return out, firstErr
+}
+
 // explore enumerates the subtree below prefix (which already contains `used` deviations).
 func explore(s *Scenario, prefix []int, used, bound int, res *result, deadline time.Time) bool {
 	o := vsched.RunOnce(prefix, s.Body, opts(s, false))
@@ -227,7 +290,14 @@ func workerMain() {
 			if s == nil {
 				res.Err = "HARNESS: unknown scenario " + j.Scn
 			} else {
-				explore(s, j.Prefix, j.Used, j.Bound, res, time.Time{})
+				if j.Det {
+					if msg := detCheck(s); msg != "" {
+						res.Err = "HARNESS: " + msg
+					}
+				}
+				if res.Err == "" {
+					explore(s, j.Prefix, j.Used, j.Bound, res, time.Time{})
+				}
 			}
 			b, _ := json.Marshal(res)
 			out.Write(b)
@@ -525,9 +595,32 @@ func MainWith(id string, scenarios []*Scenario, assumptions []string, extra Extr
 	allComplete := true
 	var rules []string
 	perScn := map[string]any{}
+	quietN, quietExecs, quietMin := 0, int64(0), -1
+	boundOf := func(s *Scenario) int {
+		if r.Thorough() {
+			return s.ThoroughBound
+		}
+		return s.QuickBound
+	}
+	var quiet []*Scenario
+	for _, s := range scenarios {
+		if only := os.Getenv("VEXPLORE_ONLY"); only != "" && !strings.Contains(s.Name, only) {
+			continue
+		}
+		if s.Quiet && !(s.ThoroughOnly && !r.Thorough()) {
+			quiet = append(quiet, s)
+		}
+	}
+	pre, err := exploreBatch(quiet, boundOf)
+	if err != nil {
+		vcommon.Harness("%v", err)
+	}
 	for _, s := range scenarios {
 		if only := os.Getenv("VEXPLORE_ONLY"); only != "" && !strings.Contains(s.Name, only) {
 			continue // debugging aid: explore the named scenario(s) only
+		}
+		if s.ThoroughOnly && !r.Thorough() {
+			continue
 		}
 		bound := s.QuickBound
 		budget := s.QuickBudget
@@ -544,16 +637,24 @@ func MainWith(id string, scenarios []*Scenario, assumptions []string, extra Extr
 			}
 		}
 		deadline := time.Now().Add(budget)
-		// determinism: the default schedule run twice must give identical observations and points
-		o1 := vsched.RunOnce(nil, s.Body, opts(s, false))
-		o2 := vsched.RunOnce(nil, s.Body, opts(s, false))
-		if strings.Join(o1.Trace, "|") != strings.Join(o2.Trace, "|") || fmt.Sprint(o1.Alts) != fmt.Sprint(o2.Alts) || firstLine(o1.Failure) != firstLine(o2.Failure) {
-			vcommon.Harness("nondeterministic: scenario %s gives different observations for the same schedule:\n%v\n%v\n%v\n%v\nfailure1=%q\nfailure2=%q", s.Name, o1.Trace, o2.Trace, o1.Alts, o2.Alts, o1.Failure, o2.Failure)
-		}
 		var final *result
 		completed := -1
 		t0 := time.Now()
-		for b := 0; b <= bound; b++ {
+		if s.Quiet {
+			// explored as one whole-scenario job (determinism double-run included) by exploreBatch
+			final = pre[s.Name]
+			if final == nil {
+				vcommon.Harness("no result for scenario %s", s.Name)
+			}
+			if final.Err != "" {
+				vcommon.Harness("%s", strings.TrimPrefix(final.Err, "HARNESS: "))
+			}
+			completed = bound
+		} else if msg := detCheck(s); msg != "" {
+			// determinism: the default schedule run twice must give identical observations and points
+			vcommon.Harness("%s", msg)
+		}
+		for b := 0; b <= bound && !s.Quiet; b++ {
 			res, complete, err := exploreSharded(s, b, deadline)
 			if err != nil {
 				vcommon.Harness("%v", err)
@@ -601,13 +702,42 @@ func MainWith(id string, scenarios []*Scenario, assumptions []string, extra Extr
 		for k, v := range final.Hist {
 			hist[fmt.Sprint(k)] = v
 		}
-		perScn[s.Name] = map[string]any{
-			"desc": s.Desc, "bound_requested": bound, "bound_completed": completed, "executions": final.Execs,
-			"scheduler_steps": final.Steps, "choice_points": final.Points, "max_points_per_execution": final.MaxPoints,
-			"distinct_outcomes": len(final.Outcomes), "deviations_histogram": hist, "wall_s": time.Since(t0).Seconds(),
+		if s.Quiet {
+			fam := s.Name
+			if i := strings.LastIndex(fam, "::"); i > 0 {
+				fam = fam[:i]
+			}
+			m, _ := perScn[fam+"/*"].(map[string]any)
+			if m == nil {
+				m = map[string]any{"desc": s.Desc, "scenarios": 0, "bound_requested": bound, "bound_completed": completed, "executions": int64(0),
+					"scheduler_steps": int64(0), "choice_points": int64(0), "max_points_per_execution": 0, "distinct_outcomes": 0, "wall_s": 0.0}
+				perScn[fam+"/*"] = m
+			}
+			m["scenarios"] = m["scenarios"].(int) + 1
+			if completed < m["bound_completed"].(int) {
+				m["bound_completed"] = completed
+			}
+			m["executions"] = m["executions"].(int64) + final.Execs
+			m["scheduler_steps"] = m["scheduler_steps"].(int64) + final.Steps
+			m["choice_points"] = m["choice_points"].(int64) + final.Points
+			if final.MaxPoints > m["max_points_per_execution"].(int) {
+				m["max_points_per_execution"] = final.MaxPoints
+			}
+			m["distinct_outcomes"] = m["distinct_outcomes"].(int) + len(final.Outcomes)
+			m["wall_s"] = m["wall_s"].(float64) + time.Since(t0).Seconds()
+			quietN++
+			quietExecs += final.Execs
+		} else {
+			perScn[s.Name] = map[string]any{
+				"desc": s.Desc, "bound_requested": bound, "bound_completed": completed, "executions": final.Execs,
+				"scheduler_steps": final.Steps, "choice_points": final.Points, "max_points_per_execution": final.MaxPoints,
+				"distinct_outcomes": len(final.Outcomes), "deviations_histogram": hist, "wall_s": time.Since(t0).Seconds(),
+			}
 		}
-		fmt.Printf("  scenario %-28s bound %d/%d execs=%d points<=%d outcomes=%d fails=%d %.1fs\n", s.Name, completed, bound,
-			final.Execs, final.MaxPoints, len(final.Outcomes), len(final.Fails), time.Since(t0).Seconds())
+		if !s.Quiet || len(final.Fails) > 0 {
+			fmt.Printf("  scenario %-28s bound %d/%d execs=%d points<=%d outcomes=%d fails=%d %.1fs\n", s.Name, completed, bound,
+				final.Execs, final.MaxPoints, len(final.Outcomes), len(final.Fails), time.Since(t0).Seconds())
+		}
 		keys := make([]string, 0, len(final.Fails))
 		for k := range final.Fails {
 			keys = append(keys, k)
@@ -620,7 +750,17 @@ func MainWith(id string, scenarios []*Scenario, assumptions []string, extra Extr
 			}
 			r.Violation(k, fmt.Sprintf("[%s, %d deviations] %s", s.Name, f.Deviations, f.What), f)
 		}
-		rules = append(rules, fmt.Sprintf("%s: all schedules with <=%d deviations", s.Name, completed))
+		if !s.Quiet {
+			rules = append(rules, fmt.Sprintf("%s: all schedules with <=%d deviations", s.Name, completed))
+		} else {
+			if quietMin < 0 || completed < quietMin {
+				quietMin = completed
+			}
+		}
+	}
+	if quietN > 0 {
+		fmt.Printf("  %d further scenarios: execs=%d, all schedules with <=%d deviations\n", quietN, quietExecs, quietMin)
+		rules = append(rules, fmt.Sprintf("%d generated scenarios (families in coverage.scenarios): all schedules with <=%d deviations", quietN, quietMin))
 	}
 	extraRule := ""
 	if extra != nil {
